@@ -204,3 +204,30 @@ void h_getOperations(void)
   VecOpPtr *v = Symmetrizer_getOperations(s);
   REACH("exit");
 }
+
+/* ======================= REMARKS =======================
+ * 1. "consistent with the tables compute() builds": the accessors are specified against the members; that compute() fills StateSize,
+ *    StatesContainer and StateBlockIndex consistently is h_SC_compute (specs/states.c) / h_SC_compute_qn (specs/qnumbers.c).  That compute()
+ *    records in BlockToQuantum, for every block it creates, the quantum numbers under which QuantumToBlock stores that block (the
+ *    representation invariant used by getQuantumNumbers(FockState)) is NOT proved here: BlockToQuantum.insert is an unmonitored stub there.
+ * 2. getQuantumNumbers(FockState) dereferences BlockToQuantum.find(...) without a test: with the invariant of remark 1 violated it
+ *    dereferences end() (obligation MapBQIt_arrow.assertion.1).
+ * 3. Symmetrizer::IndexPermutation (constructor, checkConsistency, checkIrreducibility, calculateCycleLength, getIndices, getCycleLength)
+ *    and Symmetrizer::generateTrivialCombination are NOT reachable from Symmetrizer::compute(bool) / compute(vector) / checkSymmetry nor from
+ *    any other library code (the member list `Permutations` is never filled; the only user is test/IndexPermutationTest.cpp): dead code
+ *    with respect to C07, not under contract.
+ *
+ * ======================= MUTATION RECORD (tools/try_mutant.py; killed unless noted) =======================
+ * getNumberOfStates: `return StateSize-1`                                  SC_getNumberOfStates.postcondition.1
+ * NumberOfBlocks: `StatesContainer.size()-1`                               SC_NumberOfBlocks.postcondition.1
+ * NumberOfBlocks: `StateBlockIndex.size()`                                 VecBN_size "undefined function should be unreachable" (no model: not a semantic kill)
+ * getBlockSize: `.size()+1`                                                SC_getBlockSize.postcondition.2
+ * getBlockSize: own Status test removed                                    EQUIVALENT in C++ (getFockStates throws the same exception); fails here only
+ *                                                                          through the default pointer of the printed exception path (VecFS_size.pointer_dereference)
+ * getQuantumNumbers(BlockNumber): `if (!BlockToQuantum.count(in))`         SC_getQuantumNumbers_b.postcondition.2/.3/.4, MapBQIt_arrow.assertion.1
+ * getQuantumNumbers(BlockNumber): `find(0)` instead of `find(in)`          SC_getQuantumNumbers_b.postcondition.4, MapBQIt_arrow.assertion.1
+ * getQuantumNumbers(FockState): `find(0)`                                  SC_getQuantumNumbers_f.postcondition.1/.2, MapBQIt_arrow.assertion.1
+ * getQuantumNumbers(FockState): block of FockState(IndexSize,0)            SC_getQuantumNumbers_f.postcondition.1/.2
+ * getOperations: returning another (static, empty) vector                  UNDECIDED (the mutant needs a constructor the stubs do not model) -- no type-correct
+ *                                                                          one-token mutant of `return Operations;` exists (the class has no second member of that type)
+ */
